@@ -707,3 +707,240 @@ Example C09_string_example_check :
   (do s <- frame_string ex_ff ex_f; Ok (check_string [(0x3FF0000000000000, [49]); (0, [48])]%N ex_f s)) = Ok 0%N
   /\ check_string [(0x3FF0000000000000, [49]); (0, [48])]%N ex_f [] = 2%N.
 Proof. split; vm_compute; reflexivity. Qed.
+
+(* ================================================================== wave 5: congruence for Sort, Distinct,
+   GroupBy + Aggregate, GroupBy + QFrames (Proofs/CongruenceProofs2.v)
+
+   Sort, Distinct and GroupBy are run on the frame-level models the engines execute (Model/SortFrame.v sort_frame,
+   Model/Aggregate.v distinct / group_by / aggregate / qframes).  The sorter and the hash table never look inside
+   a row id (they ask Less / equals / hash for the ids found in slots of the index), so on two frames with the
+   same logical table they make the SAME decisions slot by slot: the results have exactly the same logical table,
+   rows equal on all keys included - nothing is left "up to the order of ties / of groups". *)
+From QF Require Import Model.Sort Model.SortFrame Model.Aggregate Proofs.CongruenceProofs2.
+From QF Require Model.Grouper.
+
+(* the sorter is parametric in the row ids: two id lists paired slot by slot by any relation R on which the two
+   Less functions agree are sorted into lists paired slot by slot (or both runs fault) *)
+Theorem C09_sorter_parametric (R : nat -> nat -> Prop) lt1 lt2 s1 s2 :
+  (forall p q p' q', R p q -> R p' q' -> lt1 p p' = lt2 q q') -> Forall2 R s1 s2 ->
+  osim (Forall2 R) (sort_ids lt1 s1) (sort_ids lt2 s2).
+Proof. exact (fun H => sort_ids_sim R lt1 lt2 H s1 s2). Qed.
+Print Assumptions C09_sorter_parametric.
+
+(* so is the hash table of GroupBy / Distinct, for every equals / hash pair that agrees on paired ids *)
+Theorem C09_grouper_parametric {A B} (R : A -> B -> Prop) eqb1 eqb2 hash1 hash2 ids1 ids2 :
+  (forall a b a' b', R a b -> R a' b' -> eqb1 a a' = eqb2 b b') -> (forall a b, R a b -> hash1 a = hash2 b) ->
+  Forall2 R ids1 ids2 ->
+  osim (Forall2 (Forall2 R)) (Grouper.group_ids_gen eqb1 hash1 ids1) (Grouper.group_ids_gen eqb2 hash2 ids2)
+  /\ osim (Forall2 R) (Grouper.distinct_ids_gen eqb1 hash1 ids1) (Grouper.distinct_ids_gen eqb2 hash2 ids2)
+  /\ forall collect, Grouper.group_stats_gen eqb1 hash1 collect ids1 = Grouper.group_stats_gen eqb2 hash2 collect ids2.
+Proof.
+  intros H1 H2 H3. split; [exact (group_ids_gen_sim R eqb1 eqb2 hash1 hash2 H1 H2 ids1 ids2 H3)|].
+  split; [exact (distinct_ids_gen_sim R eqb1 eqb2 hash1 hash2 H1 H2 ids1 ids2 H3)|].
+  intro collect. exact (group_stats_gen_sim R eqb1 eqb2 hash1 hash2 H1 H2 collect ids1 ids2 H3).
+Qed.
+Print Assumptions C09_grouper_parametric.
+
+(* ---- Sort.  Premise beyond "same table, well formed": sort_keys_okb - the enum columns NAMED BY AN ORDER have the
+   same value list in both frames, without repeated values (Sort orders an enum column by the stored RANKS, which
+   the logical table does not show).  No premise about the indexes (repeats allowed), none about the orders (an
+   unknown column: both results carry the error), none about the other columns. *)
+Theorem C09_sort_congr f g t orders :
+  abs f = Ok t -> abs g = Ok t -> ferr f = ferr g -> wf_frame f = true -> wf_frame g = true ->
+  sort_keys_okb f g orders = true ->
+  same_result (sort_frame f orders) (sort_frame g orders).
+Proof. exact (sort_congr_keys f g t orders). Qed.
+Print Assumptions C09_sort_congr.
+
+(* the same with the mechanism visible: the columns are kept and the two sorted indexes hold, slot by slot, rows
+   that sat in the same slot of the two input indexes *)
+Theorem C09_sort_congr_slots f g t orders :
+  abs f = Ok t -> abs g = Ok t -> ferr f = ferr g -> wf_frame f = true -> wf_frame g = true ->
+  sort_keys_okb f g orders = true ->
+  sorted_alike (combine (ix f) (ix g)) f g (sort_frame f orders) (sort_frame g orders).
+Proof. exact (sort_congr_keys_paired f g t orders). Qed.
+Print Assumptions C09_sort_congr_slots.
+
+(* the premises of Filter's congruence theorem (same value lists and strictness in ALL enum columns) imply it *)
+Theorem C09_sort_keys_premise f g orders :
+  enum_metas f = enum_metas g -> enum_nodup_b f = true -> map fst (cols f) = map fst (cols g) ->
+  sort_keys_okb f g orders = true.
+Proof. exact (metas_sort_keys f g orders). Qed.
+Print Assumptions C09_sort_keys_premise.
+(* likewise for the key premise of Distinct / GroupBy below, for every list of column names *)
+Theorem C09_enum_keys_premise f g names :
+  enum_metas f = enum_metas g -> enum_nodup_b f = true -> map fst (cols f) = map fst (cols g) ->
+  enum_keys_okb f g names = true.
+Proof. exact (metas_keys f g names). Qed.
+Print Assumptions C09_enum_keys_premise.
+
+(* two layouts of one table (three columns: int, enum, int; rows tied on the sort keys are told apart by the third
+   column): derived index on one side, identity index and an unused physical row on the other *)
+Definition ex_sf : frame :=
+  mkFrame [([65%N], ICol [3; 1; 3; 1; 2]%Z); ([69%N], ECol [0; 1; 0; 1; 255]%N [[120%N]; [121%N]] false);
+           ([66%N], ICol [12; 14; 11; 13; 10]%Z)] [4; 2; 0; 3; 1] false.
+Definition ex_sg : frame :=
+  mkFrame [([65%N], ICol [2; 3; 3; 1; 1; 7]%Z); ([69%N], ECol [255; 0; 0; 1; 1; 0]%N [[120%N]; [121%N]] true);
+           ([66%N], ICol [10; 11; 12; 13; 14; 15]%Z)] [0; 1; 2; 3; 4] false.
+Definition ex_rows (o : outcome frame) : outcome (list (list cell)) := do r <- o; do t <- abs r; Ok (trows t).
+Example C09_sort_congr_example :
+  abs ex_sf = abs ex_sg /\ wf_frame ex_sf = true /\ wf_frame ex_sg = true
+  /\ sort_keys_okb ex_sf ex_sg [([69%N], true, true); ([65%N], false, false)] = true
+  /\ ex_rows (sort_frame ex_sf [([69%N], true, true)])
+     = Ok [[CInt 2; CEnum None; CInt 10]; [CInt 1; CEnum (Some [121%N]); CInt 13]; [CInt 1; CEnum (Some [121%N]); CInt 14];
+           [CInt 3; CEnum (Some [120%N]); CInt 11]; [CInt 3; CEnum (Some [120%N]); CInt 12]]%Z
+  /\ ex_rows (sort_frame ex_sg [([69%N], true, true)]) = ex_rows (sort_frame ex_sf [([69%N], true, true)])
+  /\ option_map ix (match sort_frame ex_sf [([69%N], true, true)] with Ok r => Some r | _ => None end) = Some [4; 3; 1; 2; 0]
+  /\ option_map ix (match sort_frame ex_sg [([69%N], true, true)] with Ok r => Some r | _ => None end) = Some [0; 3; 4; 1; 2].
+Proof. vm_compute. repeat split; reflexivity. Qed.
+
+(* the premise is needed, in both halves.  (1) the same table with the enum values declared in opposite orders
+   (C09_cf, C09_cg above): Sort returns different tables *)
+Example C09_sort_needs_same_values :
+  abs C09_cf = abs C09_cg /\ wf_frame C09_cf = true /\ wf_frame C09_cg = true
+  /\ sort_keys_okb C09_cf C09_cg [([69%N], false, false)] = false
+  /\ ex_rows (sort_frame C09_cf [([69%N], false, false)]) = Ok [[CEnum (Some [97%N])]; [CEnum (Some [98%N])]]
+  /\ ex_rows (sort_frame C09_cg [([69%N], false, false)]) = Ok [[CEnum (Some [98%N])]; [CEnum (Some [97%N])]].
+Proof. vm_compute. repeat split; reflexivity. Qed.
+(* (2) the SAME value list, but with a repeated value (the enum factory refuses such a list; Model/Ops.v
+   enum_new_const: nodup_bytes): one string has two ranks, the table does not say which one a row holds *)
+Definition C09_df : frame := mkFrame [([69%N], ECol [0; 1]%N [[97%N]; [98%N]; [97%N]] false)] [0; 1] false.
+Definition C09_dg : frame := mkFrame [([69%N], ECol [2; 1]%N [[97%N]; [98%N]; [97%N]] false)] [0; 1] false.
+Example C09_sort_needs_distinct_values :
+  abs C09_df = abs C09_dg /\ wf_frame C09_df = true /\ wf_frame C09_dg = true /\ enum_metas C09_df = enum_metas C09_dg
+  /\ sort_keys_okb C09_df C09_dg [([69%N], false, false)] = false
+  /\ ex_rows (sort_frame C09_df [([69%N], false, false)]) = Ok [[CEnum (Some [97%N])]; [CEnum (Some [98%N])]]
+  /\ ex_rows (sort_frame C09_dg [([69%N], false, false)]) = Ok [[CEnum (Some [98%N])]; [CEnum (Some [97%N])]].
+Proof. vm_compute. repeat split; reflexivity. Qed.
+
+(* ---- Distinct, GroupBy + Aggregate, GroupBy + QFrames, for every memhash.  Premises beyond "same table, well
+   formed": enum_keys_okb - the enum columns among the KEY columns (Distinct without columns: all columns,
+   distinct_keys) have the same value list in both frames, without repeated values (equals and hash read the RANK
+   byte of an enum cell; aggregated enum columns are seen as strings and need nothing) -, and rnd_agree: under Null(false) a null key cell is hashed to rand.Uint64(); the model indexes the draws by the row
+   being hashed (rnd row col), and "the same random stream" for two layouts means the same draws for the rows in
+   the same slot of the two indexes.  Under Null(true) no draw is made and the premise is void
+   (C09_rnd_agree_null_true).  same_outcome is same_result plus "both return the error value". *)
+Theorem C09_distinct_congr f g t mh nulleq rnd1 rnd2 columns :
+  abs f = Ok t -> abs g = Ok t -> ferr f = ferr g -> wf_frame f = true -> wf_frame g = true ->
+  enum_keys_okb f g (distinct_keys f columns) = true ->
+  rnd_agree nulleq (combine (ix f) (ix g)) rnd1 rnd2 ->
+  same_outcome (distinct mh rnd1 nulleq f columns) (distinct mh rnd2 nulleq g columns).
+Proof. exact (fun a b c d e => distinct_congr f g t a b c d e mh nulleq rnd1 rnd2 columns). Qed.
+Print Assumptions C09_distinct_congr.
+
+(* the model of Distinct never returns the error value, so the statement holds in the form of the other
+   operations as well (same_result: both panic, or same Err and same logical table) *)
+Theorem C09_distinct_not_fail mh rnd nulleq f columns : distinct mh rnd nulleq f columns <> Fail.
+Proof. exact (distinct_not_fail mh rnd nulleq f columns). Qed.
+Print Assumptions C09_distinct_not_fail.
+Theorem C09_distinct_congr_result f g t mh nulleq rnd1 rnd2 columns :
+  abs f = Ok t -> abs g = Ok t -> ferr f = ferr g -> wf_frame f = true -> wf_frame g = true ->
+  enum_keys_okb f g (distinct_keys f columns) = true ->
+  rnd_agree nulleq (combine (ix f) (ix g)) rnd1 rnd2 ->
+  same_result (distinct mh rnd1 nulleq f columns) (distinct mh rnd2 nulleq g columns).
+Proof. exact (distinct_congr_result f g t mh nulleq rnd1 rnd2 columns). Qed.
+Print Assumptions C09_distinct_congr_result.
+
+Theorem C09_rnd_agree_null_true L rnd1 rnd2 : rnd_agree true L rnd1 rnd2.
+Proof. exact (or_introl eq_refl). Qed.
+Print Assumptions C09_rnd_agree_null_true.
+
+(* the two Groupers: same Err, same grouping columns, groups paired slot by slot with members in the same order *)
+Theorem C09_group_by_congr f g t mh nulleq rnd1 rnd2 columns :
+  abs f = Ok t -> abs g = Ok t -> ferr f = ferr g -> wf_frame f = true -> wf_frame g = true ->
+  enum_keys_okb f g columns = true ->
+  rnd_agree nulleq (combine (ix f) (ix g)) rnd1 rnd2 ->
+  osim (GRel (combine (ix f) (ix g)))
+       (group_by mh rnd1 nulleq f columns) (group_by mh rnd2 nulleq g columns).
+Proof. exact (fun a b c d e => group_by_congr f g t a b c d e mh nulleq rnd1 rnd2 columns). Qed.
+Print Assumptions C09_group_by_congr.
+
+(* Aggregate on two such Groupers returns THE SAME frame (same columns, data, identity index, Err) - for every
+   aggregation list, every function table: no premise at all about the aggregations *)
+Theorem C09_aggregate_congr L ft a b aggs : GRel L a b -> aggregate ft a aggs = aggregate ft b aggs.
+Proof. exact (aggregate_sim L ft a b aggs). Qed.
+Print Assumptions C09_aggregate_congr.
+
+Theorem C09_groupby_aggregate_congr f g t mh nulleq rnd1 rnd2 ft columns aggs :
+  abs f = Ok t -> abs g = Ok t -> ferr f = ferr g -> wf_frame f = true -> wf_frame g = true ->
+  enum_keys_okb f g columns = true ->
+  rnd_agree nulleq (combine (ix f) (ix g)) rnd1 rnd2 ->
+  (do gr <- group_by mh rnd1 nulleq f columns; aggregate ft gr aggs)
+  = (do gr <- group_by mh rnd2 nulleq g columns; aggregate ft gr aggs).
+Proof. exact (fun a b c d e => groupby_aggregate_congr f g t a b c d e mh nulleq rnd1 rnd2 ft columns aggs). Qed.
+Print Assumptions C09_groupby_aggregate_congr.
+
+Theorem C09_groupby_qframes_congr f g t mh nulleq rnd1 rnd2 columns :
+  abs f = Ok t -> abs g = Ok t -> ferr f = ferr g -> wf_frame f = true -> wf_frame g = true ->
+  enum_keys_okb f g columns = true ->
+  rnd_agree nulleq (combine (ix f) (ix g)) rnd1 rnd2 ->
+  osim (Forall2 (fun f' g' => ferr f' = ferr g' /\ abs f' = abs g'))
+       (do gr <- group_by mh rnd1 nulleq f columns; qframes gr)
+       (do gr <- group_by mh rnd2 nulleq g columns; qframes gr).
+Proof. exact (fun a b c d e => groupby_qframes_congr f g t a b c d e mh nulleq rnd1 rnd2 columns). Qed.
+Print Assumptions C09_groupby_qframes_congr.
+
+(* a concrete memhash and random source; the second source is the first one re-addressed through the two
+   indexes, so that the rows in the same slot see the same draws *)
+Definition ex_mh (b : bytes) (seed : N) : N := fold_left (fun h x => (h * 31 + x + 7) mod 2 ^ 64)%N b seed.
+Definition ex_rnd1 (row col : nat) : N := N.of_nat (1000 + 17 * row + col).
+Definition ex_rnd2 (row col : nat) : N := ex_rnd1 (nth row [4; 2; 0; 3; 1] 0) col.
+Definition ex_aggs : list aggregation := [mkAgg (GName (bs 3 0x73756d)) [66%N] [83%N]; mkAgg (GName name_count) [66%N] [67%N]].
+Example C09_rnd_agree_example : rnd_agree false (combine (ix ex_sf) (ix ex_sg)) ex_rnd1 ex_rnd2.
+Proof.
+  right. intros p q H col. cbn in H.
+  repeat (destruct H as [H|H]; [inversion H; subst; reflexivity|]). destruct H.
+Qed.
+(* ex_sg with the strictness of ex_sf: Aggregate returns the same frame for both, the Subset of an enum key column
+   does not keep the strict flag (C09_groupby_congr_example_strict) *)
+Definition ex_sh : frame :=
+  mkFrame [([65%N], ICol [2; 3; 3; 1; 1; 7]%Z); ([69%N], ECol [255; 0; 0; 1; 1; 0]%N [[120%N]; [121%N]] false);
+           ([66%N], ICol [10; 11; 12; 13; 14; 15]%Z)] [0; 1; 2; 3; 4] false.
+Example C09_groupby_congr_example :
+  abs ex_sf = abs ex_sh /\ wf_frame ex_sf = true /\ wf_frame ex_sh = true
+  /\ enum_keys_okb ex_sf ex_sh [[65%N]; [69%N]] = true /\ enum_keys_okb ex_sf ex_sh (distinct_keys ex_sf []) = true
+  /\ ix ex_sh = ix ex_sg
+  /\ (do gr <- group_by ex_mh ex_rnd1 false ex_sf [[65%N]; [69%N]]; Ok (gindices gr)) = Ok [[4]; [3; 1]; [2; 0]]
+  /\ (do gr <- group_by ex_mh ex_rnd2 false ex_sh [[65%N]; [69%N]]; Ok (gindices gr)) = Ok [[0]; [3; 4]; [1; 2]]
+  /\ (do gr <- group_by ex_mh ex_rnd1 false ex_sf [[65%N]; [69%N]]; aggregate [] gr ex_aggs)
+     = Ok (mkFrame [([65%N], ICol [2; 1; 3]%Z); ([69%N], ECol [255; 1; 0]%N [[120%N]; [121%N]] false);
+                    ([83%N], ICol [10; 27; 23]%Z); ([67%N], ICol [1; 2; 2]%Z)] [0; 1; 2] false)
+  /\ ex_rows (distinct ex_mh ex_rnd1 false ex_sf [[69%N]])
+     = Ok [[CInt 1; CEnum (Some [121%N]); CInt 13]; [CInt 2; CEnum None; CInt 10]; [CInt 3; CEnum (Some [120%N]); CInt 11]]%Z
+  /\ ex_rows (distinct ex_mh ex_rnd2 false ex_sh [[69%N]]) = ex_rows (distinct ex_mh ex_rnd1 false ex_sf [[69%N]]).
+Proof. vm_compute. repeat split; reflexivity. Qed.
+
+Example C09_groupby_congr_example_strict :
+  enum_metas ex_sf <> enum_metas ex_sg /\ enum_keys_okb ex_sf ex_sg [[65%N]; [69%N]] = true
+  /\ (do gr <- group_by ex_mh ex_rnd2 false ex_sg [[65%N]; [69%N]]; aggregate [] gr ex_aggs)
+     = (do gr <- group_by ex_mh ex_rnd1 false ex_sf [[65%N]; [69%N]]; aggregate [] gr ex_aggs).
+Proof. split; [vm_compute; discriminate|]. vm_compute. split; reflexivity. Qed.
+
+(* the premises are needed.  (1) enum value lists in opposite orders: other hash values, other order of the rows
+   that Distinct keeps.  (2) a value list with a repeated value: the two ranks of one string are different keys.
+   (3) Null(false) with other random draws for the rows in the same slot: the null keys land in other slots. *)
+Example C09_distinct_needs_same_values :
+  abs C09_cf = abs C09_cg /\ enum_keys_okb C09_cf C09_cg [[69%N]] = false
+  /\ ex_rows (distinct ex_mh ex_rnd1 true C09_cf [[69%N]]) <> ex_rows (distinct ex_mh ex_rnd1 true C09_cg [[69%N]]).
+Proof. split; [reflexivity|]. split; [reflexivity|]. vm_compute. discriminate. Qed.
+Example C09_distinct_needs_distinct_values :
+  let f := mkFrame [([69%N], ECol [0; 2]%N [[97%N]; [98%N]; [97%N]] false)] [0; 1] false in
+  let g := mkFrame [([69%N], ECol [0; 0]%N [[97%N]; [98%N]; [97%N]] false)] [0; 1] false in
+  abs f = abs g /\ enum_metas f = enum_metas g /\ enum_nodup_b f = false /\ enum_keys_okb f g [[69%N]] = false
+  /\ ex_rows (distinct ex_mh ex_rnd1 true f [[69%N]]) = Ok [[CEnum (Some [97%N])]; [CEnum (Some [97%N])]]
+  /\ ex_rows (distinct ex_mh ex_rnd1 true g [[69%N]]) = Ok [[CEnum (Some [97%N])]].
+Proof. vm_compute. repeat split; reflexivity. Qed.
+Example C09_distinct_needs_same_draws :
+  let f := mkFrame [([83%N], SCol [None; None]); ([66%N], ICol [10; 11]%Z)] [0; 1] false in
+  ex_rows (distinct ex_mh (fun r _ => N.of_nat r) false f [[83%N]]) = Ok [[CStr None; CInt 10]; [CStr None; CInt 11]]%Z
+  /\ ex_rows (distinct ex_mh (fun r _ => N.of_nat (1 - r)) false f [[83%N]]) = Ok [[CStr None; CInt 11]; [CStr None; CInt 10]]%Z.
+Proof. vm_compute. repeat split; reflexivity. Qed.
+
+(* ---- the summary statement: C09_congruence_statement2 extended by the four operations *)
+Definition C09_congruence_statement3 : Prop := congruence_statement3.
+Theorem C09_congruence3 : C09_congruence_statement3.
+Proof. exact congruence3. Qed.
+Print Assumptions C09_congruence3.
+(* Still NOT theorems: congruence with respect to Equals itself instead of table identity (false for -0 / +0, see
+   above); that the rebuilt twin of C09_rebuild satisfies the enum key premises (its value tables may differ from
+   f's when f's tables list values no row uses - the premise is decidable on the two frames at hand). *)
